@@ -25,7 +25,9 @@ func runC02(c *Ctx) {
 	// differ compares: the metadata writer's order matters (a chown after the
 	// chmod clears setuid/setgid, so the file differs again on every pass) -
 	// shared with C01
-	r01_2(c, "R02.6")
+	if c.Unix() {
+		r01_2(c, "R02.6")
+	}
 }
 
 // identity fields: all exported fields of types.Stat minus these, with reason.
